@@ -20,7 +20,7 @@ func init() {
 			"(P19-remove) Remove deletes exactly the key given and reports false without a change when absent, Set stores under the bookmark's own name, Clear replaces the map; (P19-sorted) All() returns the slice it sorted ascending by name and both ToJson and list iterate All(); " +
 			"(P19-json-sym) writer and reader use the same JSON record type, the reader rejects missing fields and relative paths and Sets every entry; (P19-names/P19-resolve) set/unset/info/@name resolution normalise the key with NewName, and NewName's empty-name fallback, Default() and NewDefaultBookmark use one and the same constant. " +
 			"Not covered: behaviour over sequences of processes (file system state), name normalisation details (TrimLeft), JSON escaping (encoding/json).",
-		rules: []ruleFn{ruleP19Rmw, ruleP19AbsentDb, ruleP19CmdEffects, ruleP19Remove, ruleP19Sorted, ruleP19JsonSym, ruleP19Names, ruleP19NameStrip, ruleP19Persist, ruleP19ValidName},
+		rules:   []ruleFn{ruleP19Rmw, ruleP19AbsentDb, ruleP19CmdEffects, ruleP19Remove, ruleP19Sorted, ruleP19JsonSym, ruleP19Names, ruleP19NameStrip, ruleP19Persist, ruleP19ValidName},
 		trusted: []string{"encoding/json round-trips a struct of two strings", "os.WriteFile / os.ReadFile (I/O faults out of scope)"},
 	})
 }
